@@ -43,7 +43,7 @@ func readTlvStream(
 		for {
 			rdr := enc.NewBufferReader(recvBuf[tlvOff:recvOff])
 
-			typ, err := enc.ReadTLNum(rdr)
+			_, err := enc.ReadTLNum(rdr)
 			if err != nil {
 				// Probably incomplete packet
 				break
@@ -60,7 +60,9 @@ func readTlvStream(
 				return errors.New("received TLV block larger than the receive buffer")
 			}
 
-			tlvSize := typ.EncodingLength() + len.EncodingLength() + int(len)
+			// The block is as long as what was read of it: T and L count with the bytes they
+			// were sent in (ReadTLNum accepts a number that is not in its shortest form)
+			tlvSize := rdr.Pos() + int(len)
 
 			if recvOff-tlvOff >= tlvSize {
 				// Packet was successfully received, send up to link service
